@@ -241,7 +241,7 @@ NATIVE_TWINS = {
     'C06': ('c06_annotation_model', None,
             '24 positions (14 pseudo-random openings, discovered check / mate by en passant, by a quiet move, double check, promotions incl. under-promotions, back-rank mate, stalemate threat, castling check; a fresh oracle generator per successor): every listed move is annotated with the verdict of its successor; player_is_in_check / player_is_in_checkmate / game_ending agree with a brute-force reading'),
     'C07': ('c07_search_model', None,
-            '16 positions (10 pseudo-random openings, mated, stalemated, single reply, in check, promotion next, en passant) x depths 0..3, fresh context: legal move / right error, every observable of the board unchanged, no panic'),
+            '16 positions (10 pseudo-random openings, mated, stalemated, single reply, in check, promotion next, en passant) x depths 0..3, fresh context: legal move / right error, every observable of the board unchanged, no panic; ONE reused context per depth 1..3 through 18 placements x both sides to move x 2 rounds: a legal move of the side to move'),
     'C08': ('c08_minimax_model', None,
             '9 positions x depths 1..3 with a fresh context, 4 games x 8 plies at depth 3 with one reused context, and one context through 16 unrelated positions (values far apart in both directions, both sides to move) at depths 2 and 3; 5 forced-mate games x depths 3, 4 with one reused context (the same mated position met at different remaining depths): reported score == unpruned uncached reference minimax, returned move attains it'),
     'C10': ('c10_perft_model', None,
